@@ -52,6 +52,7 @@ def fam_first_write_dies():
 
 def families(tier):
     return [corpus.make_family(s, [asserts.consumer_iff_allocations, asserts.consumer_attributes, asserts.no_5xx,
+                                    asserts.attributes_only_by_success,
                                     asserts.recreatable])
             for s in corpus.shapes(tier)] + [fam_first_write_dies()]
 
@@ -63,4 +64,5 @@ if __name__ == '__main__':
         assumptions=['pre-state: standard world of checks/corpus.py under '
                      'its stated invariant (allocation => inventory, '
                      'consumer row <=> allocations)',
-                     'see DESIGN.md 3.4 for shims, 3.2 for arithmetic']))
+                     'see DESIGN.md 3.4 for shims, 3.2 for arithmetic'],
+        quick_budget=420, thorough_budget=1700))
